@@ -15,10 +15,17 @@ pub struct Leaf {
     pub d: &'static [usize],
     pub dom: Dom,
     pub tracked: bool,
+    /// made trackable with `start_tracking()` on the handle instead of `.tracked()`
+    pub via_start: bool,
 }
 
 pub const fn leaf(d: &'static [usize], dom: Dom, tracked: bool) -> Leaf {
-    Leaf { d, dom, tracked }
+    Leaf { d, dom, tracked, via_start: false }
+}
+
+/// a leaf that is tracked through `start_tracking()` (the hand-update idiom of the suite)
+pub const fn leaf_st(d: &'static [usize], dom: Dom) -> Leaf {
+    Leaf { d, dom, tracked: true, via_start: true }
 }
 
 #[derive(Clone, Copy, PartialEq, Eq)]
@@ -84,7 +91,12 @@ pub fn build<S: Source>(s: &mut S, leaves: &[Leaf]) -> Built {
         let v = s.vals(n, l.dom);
         let a = Array::from((l.d.to_vec(), v.clone()));
         if l.tracked {
-            arrays.push(a.tracked());
+            if l.via_start {
+                a.start_tracking();
+                arrays.push(a);
+            } else {
+                arrays.push(a.tracked());
+            }
             refs.push(T::var(l.d, v, next, ndir));
             first_dir.push(Some(next));
             next += n;
